@@ -289,6 +289,9 @@ struct Search<'a> {
     /// snapshot-isolation semantics for DELETE: its predicate is evaluated at a snapshot point
     /// and the rows captured there are removed at a later commit point
     si: bool,
+    /// the row count a DELETE reports is a result that the order must reproduce (C10 only: the
+    /// other properties speak of rows, not of counts)
+    counts: bool,
     seen: HashSet<(u64, String, String)>,
     finals: Vec<Model>,
     budget: u64,
@@ -383,15 +386,29 @@ impl Search<'_> {
                     sk |= 1 << j;
                 }
             }
+            // a DELETE reports how many rows it removed: that count is a result like a query's
+            let reported: Option<i64> = match (&st.stmt, &st.outcome) {
+                (Stmt::Delete { .. }, Some(Outcome::Ok(rows)))
+                    if self.counts && rows.len() == 1 && rows[0].len() == 1 =>
+                {
+                    match &rows[0][0] {
+                        Val::Int(n) => Some(*n),
+                        _ => None,
+                    }
+                }
+                _ => None,
+            };
             if self.si {
                 if let Stmt::Delete { table, pred } = &st.stmt {
                     // snapshot point: capture the rows the predicate selects now
                     if let Some((def, data)) = m.tables.get(table) {
                         let rows: Vec<Row> =
                             data.iter().filter(|r| pred.holds(def, r)).cloned().collect();
-                        let mut pn = pending.clone();
-                        pn.insert(i, rows);
-                        self.dfs(done, sk, &pn, m);
+                        if reported.is_none_or(|c| c == rows.len() as i64) {
+                            let mut pn = pending.clone();
+                            pn.insert(i, rows);
+                            self.dfs(done, sk, &pn, m);
+                        }
                     }
                     if self.may.contains(&i) {
                         self.dfs(done, skipped | (1 << i), pending, m);
@@ -399,8 +416,17 @@ impl Search<'_> {
                     continue;
                 }
             }
-            if let Some(n) = apply_if_ok(m, &st.stmt) {
-                self.dfs(done | (1 << i), sk, pending, &n);
+            let count_ok = match (&st.stmt, reported) {
+                (Stmt::Delete { table, pred }, Some(c)) => match m.tables.get(table) {
+                    Some((def, data)) => data.iter().filter(|r| pred.holds(def, r)).count() as i64 == c,
+                    None => true,
+                },
+                _ => true,
+            };
+            if count_ok {
+                if let Some(n) = apply_if_ok(m, &st.stmt) {
+                    self.dfs(done | (1 << i), sk, pending, &n);
+                }
             }
             // an optional statement may also be left out (and then never runs)
             if self.may.contains(&i) {
@@ -418,6 +444,7 @@ fn reachable(
     base: &Model,
     rt: bool,
     si: bool,
+    counts: bool,
 ) -> (Vec<Model>, bool) {
     let mut s = Search {
         stmts,
@@ -426,6 +453,7 @@ fn reachable(
         base,
         rt,
         si,
+        counts,
         seen: HashSet::new(),
         finals: vec![],
         budget: 300_000,
@@ -769,14 +797,14 @@ pub async fn run(cx: &mut Ctx) {
     if (p == "C09" || p == "C10") && !deadlock && cx.vio.is_empty() {
         cx.stats.evaluations += 1;
         if acked.len() <= 14 {
-            let (finals, exhausted) = reachable(&stmts, acked.clone(), vec![], &base, false, false);
+            let (finals, exhausted) = reachable(&stmts, acked.clone(), vec![], &base, false, false, p == "C10");
             let explained = !finals.is_empty() && finals.iter().any(obs_matches);
             if exhausted {
                 cx.probe("serial-search-budget-exhausted");
             } else if !explained {
                 // Is the history at least what snapshot isolation allows (a DELETE evaluates
                 // its predicate on the snapshot taken when it starts)?
-                let (si_finals, si_exh) = reachable(&stmts, acked.clone(), vec![], &base, false, true);
+                let (si_finals, si_exh) = reachable(&stmts, acked.clone(), vec![], &base, false, true, p == "C10");
                 let si_ok = !si_exh && si_finals.iter().any(obs_matches);
                 let want: Vec<String> = finals
                     .iter()
@@ -898,7 +926,7 @@ pub async fn run(cx: &mut Ctx) {
                 cx.probe("too-many-statements-for-reader-search");
                 continue;
             }
-            let (finals, exhausted) = reachable(&stmts, must, may, &base, true, true);
+            let (finals, exhausted) = reachable(&stmts, must, may, &base, true, true, false);
             if exhausted {
                 cx.probe("serial-search-budget-exhausted");
                 continue;
@@ -984,7 +1012,7 @@ pub async fn run(cx: &mut Ctx) {
                 cx.probe("too-many-statements-for-reader-search");
                 continue;
             }
-            let (finals, exhausted) = reachable(&stmts, must, may, &base, true, true);
+            let (finals, exhausted) = reachable(&stmts, must, may, &base, true, true, false);
             if exhausted {
                 cx.probe("serial-search-budget-exhausted");
                 continue;
